@@ -69,7 +69,7 @@ fn is_int(r: &Result<Variable, ExecError>, x: i64) -> bool {
     matches!(r, Ok(Variable::Int(v)) if *v == x)
 }
 
-/// x := a ; f := () -> int { return x } ; x := b ; f()  ==  a     (and again after a second rebinding)
+/// x := a ; f := () -> int { return x } ; x := b ; f()  ==  a
 #[kani::proof]
 #[kani::unwind(5)]
 #[kani::stub(alloc::fmt::format, crate::verif_common::stub_format)]
@@ -81,12 +81,21 @@ pub fn capture_by_value_at_creation() {
     let f = create(&lambda(crate::vv![], crate::vv![iws(ret(name("x")))]), &mut interp);
     interp.insert("x".into(), Variable::Int(b));
     assert!(is_int(&f.exec_with_args(&[]), a));
-    // called in the caller's own environment (the zero-argument call path hands it over): still a
+    kani::cover!(a != b);
+}
+/// the same when the function is run in the creator's own environment (the zero-argument call path
+/// `f()` hands the caller's interpreter to Function::exec): still a
+#[kani::proof]
+#[kani::unwind(5)]
+#[kani::stub(alloc::fmt::format, crate::verif_common::stub_format)]
+pub fn capture_by_value_zero_argument_call_path() {
+    levels(UO | V, V, 0, 0);
+    let (a, b): (i64, i64) = (kani::any(), kani::any());
+    let mut interp = Interpreter::without_stdlib();
+    interp.insert("x".into(), Variable::Int(a));
+    let f = create(&lambda(crate::vv![], crate::vv![iws(ret(name("x")))]), &mut interp);
+    interp.insert("x".into(), Variable::Int(b));
     assert!(is_int(&f.exec(&mut interp), a));
-    // a function created now sees b
-    let g = create(&lambda(crate::vv![], crate::vv![iws(ret(name("x")))]), &mut interp);
-    assert!(is_int(&g.exec_with_args(&[]), b));
-    assert!(is_int(&f.exec_with_args(&[]), a));
     kani::cover!(a != b);
 }
 
@@ -106,20 +115,30 @@ pub fn parameter_shadows_captured_name() {
 }
 
 /// inside the body a name denotes the nearest declaration that precedes its use:
-///   x := a ; f := () -> int { y := x ; x := k ; return (first ? y : x) }
-#[kani::proof]
-#[kani::unwind(5)]
-#[kani::stub(alloc::fmt::format, crate::verif_common::stub_format)]
-pub fn declaration_in_body_shadows_only_later_uses() {
+///   x := a ; f := () -> int { y := x ; x := k ; return y }  == a   /   ... return x }  == k
+fn body_decl(which: &'static str) -> (Result<Variable, ExecError>, i64, i64) {
     levels(ST | UO | V, V, 0, 0);
     let (a, k): (i64, i64) = (kani::any(), kani::any());
     let mut interp = Interpreter::without_stdlib();
     interp.insert("x".into(), Variable::Int(a));
-    let body = |which: &'static str| crate::vv![iws(set("y", name("x"))), iws(set("x", lit(k))), iws(ret(name(which)))];
-    let fy = create(&lambda(crate::vv![], body("y")), &mut interp);
-    let fx = create(&lambda(crate::vv![], body("x")), &mut interp);
-    assert!(is_int(&fy.exec_with_args(&[]), a));
-    assert!(is_int(&fx.exec_with_args(&[]), k));
+    let body = crate::vv![iws(set("y", name("x"))), iws(set("x", lit(k))), iws(ret(name(which)))];
+    let f = create(&lambda(crate::vv![], body), &mut interp);
+    (f.exec_with_args(&[]), a, k)
+}
+#[kani::proof]
+#[kani::unwind(5)]
+#[kani::stub(alloc::fmt::format, crate::verif_common::stub_format)]
+pub fn declaration_in_body_does_not_reach_earlier_uses() {
+    let (r, a, k) = body_decl("y");
+    assert!(is_int(&r, a));
+    kani::cover!(a != k);
+}
+#[kani::proof]
+#[kani::unwind(5)]
+#[kani::stub(alloc::fmt::format, crate::verif_common::stub_format)]
+pub fn declaration_in_body_shadows_later_uses() {
+    let (r, a, k) = body_decl("x");
+    assert!(is_int(&r, k));
     kani::cover!(a != k);
 }
 
@@ -191,7 +210,7 @@ pub fn block_function_declaration_does_not_overwrite_parameter() {
 }
 
 /// a function can refer to itself by its declared name on every call path (exec_with_args binds the
-/// name first, so a parameter of the same name shadows it)
+/// name on each call):  g(n: int) -> any { return g } ; g(c) is g itself
 #[kani::proof]
 #[kani::unwind(5)]
 #[kani::stub(alloc::fmt::format, crate::verif_common::stub_format)]
@@ -199,7 +218,6 @@ pub fn declared_name_is_bound_in_every_call() {
     levels(FD | UO | V, UO | V, V, 0);
     let c: i64 = kani::any();
     let mut interp = Interpreter::without_stdlib();
-    // g(n: int) -> () -> int  { return g }   -- `g` inside the body is the function itself
     let gt = Type::Function(Arc::new(crate::variable::FunctionType { params: Arc::from(crate::vv![Type::Int]), return_type: Type::Any }));
     let decl = FunctionDeclaration { ident: "g".into(), params: Params(Arc::from(crate::vv![Param { name: "n".into(), var_type: Type::Int }])), body: Arc::from(crate::vv![iws(ret(local("g", gt)))]), return_type: Type::Any };
     let g = match decl.exec(&mut interp) {
@@ -210,12 +228,22 @@ pub fn declared_name_is_bound_in_every_call() {
     assert!(matches!(interp.get_variable("g"), Some(Variable::Function(h)) if Arc::ptr_eq(h, &g)));
     let args = crate::vv![Variable::Int(c)];
     assert!(matches!(g.exec_with_args(&args), Ok(Variable::Function(h)) if Arc::ptr_eq(&h, &g)));
-    // a parameter named like the function shadows it:  h(h: int) -> int { return h }
+    kani::cover!(true);
+}
+/// a parameter named like the function shadows it:  h(h: int) -> int { return h } ; h(c) == c
+#[kani::proof]
+#[kani::unwind(5)]
+#[kani::stub(alloc::fmt::format, crate::verif_common::stub_format)]
+pub fn parameter_shadows_the_function_name() {
+    levels(FD | UO | V, UO | V, V, 0);
+    let c: i64 = kani::any();
+    let mut interp = Interpreter::without_stdlib();
     let decl2 = FunctionDeclaration { ident: "h".into(), params: Params(Arc::from(crate::vv![Param { name: "h".into(), var_type: Type::Int }])), body: Arc::from(crate::vv![iws(ret(name("h")))]), return_type: Type::Int };
     let h = match decl2.exec(&mut interp) {
         Ok(Variable::Function(h)) => h,
         _ => panic!("declaring the function failed"),
     };
+    let args = crate::vv![Variable::Int(c)];
     assert!(is_int(&h.exec_with_args(&args), c));
     kani::cover!(true);
 }
